@@ -62,7 +62,7 @@ theorem detach_goodOr (s : St) (now : Nat) (h : GoodOr s) (hr : R s) : GoodOr (d
       rw [e1, e2, e3, e4]
       exact h.linv
 
-theorem qinv_init_any (ow : Nat → Option Elem) : QInv initDynamic ow [] := by
+theorem qinv_init_any (c : Cmp) (ow : Nat → Option Elem) : QInv c initDynamic ow [] := by
   refine ⟨⟨?_, ?_, ?_, ?_⟩, ?_, ?_⟩
   · simp [BpOK, initDynamic]
   · intro h i hh; simp [initDynamic] at hh
@@ -105,7 +105,7 @@ theorem reset_goodOr (s : St) (h : GoodOr s) (hh : (hasTasks s).1 = false) : Goo
       have := h.sinv.cnt x
       simp only [cntAll, heapTasks, hnil, List.map_nil, List.count_nil] at this
       simpa [cntAll, heapTasks, initDynamic] using this
-    · exact qinv_init_any _
+    · exact qinv_init_any _ _
     · intro e he; simp [initDynamic] at he
 
 theorem fail_goodOr (s : St) (b : Bool) (h : GoodOr s) : GoodOr { s with failPush := b } := by
@@ -116,7 +116,7 @@ theorem fail_goodOr (s : St) (b : Bool) (h : GoodOr s) : GoodOr { s with failPus
       h.sinv.asapTs, h.sinv.runDue, h.sinv.tsAtOK, h.sinv.genPos, h.sinv.tsBound⟩, h.linv⟩
 
 theorem good_init {n : Nat} (hn : n < 2^63) : Good (St.init n) := by
-  refine ⟨⟨?_, ?_, qinv_init_any _, ?_, rfl, hn, ?_, ?_, ?_, ?_, ?_, ?_⟩, ⟨?_, ?_, ?_, ?_⟩⟩
+  refine ⟨⟨?_, ?_, qinv_init_any _ _, ?_, rfl, hn, ?_, ?_, ?_, ?_, ?_, ?_⟩, ⟨?_, ?_, ?_, ?_⟩⟩
   · intro x; simp [cntAll, heapTasks, St.init, initDynamic]
   · intro x hx; simp [St.init] at hx
   · intro e he; simp [St.init, initDynamic] at he
